@@ -22,7 +22,8 @@ from pysmt.smtlib.parser import SmtLibParser
 from pysmt.smtlib.script import SmtLibCommand
 from pysmt.solvers.solver import Solver, SolverOptions
 from pysmt.exceptions import (SolverReturnedUnknownResultError,
-                              UnknownSolverAnswerError, PysmtValueError)
+                              UnknownSolverAnswerError, PysmtValueError,
+                              PysmtSyntaxError)
 from pysmt.decorators import clear_pending_pop
 
 class SmtLibOptions(SolverOptions):
@@ -129,7 +130,16 @@ class SmtLibSolver(Solver): # TODO this class is defined twice in pysmt. Here an
 
     def _get_value_answer(self):
         """Reads and parses an assignment from the STDOUT pipe"""
-        lst = self.parser.get_assignment_list(self.solver_stdout)
+        try:
+            lst = self.parser.get_assignment_list(self.solver_stdout)
+        except PysmtSyntaxError:
+            # The reply is not a list of pairs, e.g., (error "...").
+            # Do not leave the rest of it in the pipe: it would be
+            # read as the reply to the next command.
+            rest = self.solver_stdout.readline().strip()
+            self._debug("Read: %s", rest)
+            raise UnknownSolverAnswerError(
+                "Solver did not return a list of values (...%s)" % rest)
         self._debug("Read: %s", lst)
         return lst
 
